@@ -66,6 +66,22 @@ HELPERS = r'''
                             let s2 = format!("{:?}", stack); stack.clear();
                             execute_instructions(&p, &mut stack, &mut memory, &mut claims, ExecutionPhase::Proof);
                             format!("STACKS {} ;; {} ;; {:?} MEMORY {:?} CLAIMS {:?}", s1, s2, stack, memory, claims) }
+                "exec" => { // exec <0|1|2> <hex> S <n> (P|R pattern)*n  M <n> (P|R pattern)*n  C <n> pattern*n   (stack/claims: top first)
+                            let ph: u8 = it.next().unwrap().parse().unwrap(); let b = hex(it.next().unwrap());
+                            let mut stack: Stack = Vec::new(); let mut memory: Memory = Vec::new(); let mut claims: Claims = Vec::new();
+                            assert!(*it.next().unwrap() == "S"); let n: usize = it.next().unwrap().parse().unwrap();
+                            for _ in 0..n { let k = *it.next().unwrap(); let p = parse(&mut it);
+                                            stack.push(if k == "P" { Term::Pattern(p) } else { Term::Proved(p) }); }
+                            stack.reverse();
+                            assert!(*it.next().unwrap() == "M"); let n: usize = it.next().unwrap().parse().unwrap();
+                            for _ in 0..n { let k = *it.next().unwrap(); let p = parse(&mut it);
+                                            memory.push(if k == "P" { Entry::Pattern(p) } else { Entry::Proved(p) }); }
+                            assert!(*it.next().unwrap() == "C"); let n: usize = it.next().unwrap().parse().unwrap();
+                            for _ in 0..n { let p = parse(&mut it); claims.push(p); }
+                            claims.reverse();
+                            let phase = match ph { 0 => ExecutionPhase::Gamma, 1 => ExecutionPhase::Claim, _ => ExecutionPhase::Proof };
+                            execute_instructions(&b, &mut stack, &mut memory, &mut claims, phase);
+                            format!("STACK {:?} MEMORY {:?} CLAIMS {:?}", stack, memory, claims) }
                 "phase" => { // phase <0|1|2> <hex>  : one phase from empty state
                             let ph: u8 = it.next().unwrap().parse().unwrap(); let b = hex(it.next().unwrap());
                             let mut claims: Claims = Vec::new(); let mut memory: Memory = Vec::new(); let mut stack: Stack = Vec::new();
